@@ -558,6 +558,27 @@
         idx >= self.items@.len() ==> res is None,
 //@ closure map 1 optional
 |item: &(Aspa, AspaAction)| -> (r: (&Aspa, Action)) ensures r == (&item.0, rtr_action(item.1))
+//@ fn DeltaArcIter::new
+//@ spec
+    ensures
+        res.delta == delta,
+        // C11: a fresh iterator stands before the first listed action
+        res.wf() && res.pos() == 0,
+//@ fn DeltaArcIter::next
+//@ spec
+    ensures
+        // C11: repeated next() yields exactly the delta's listed actions - the route origins' entries, then
+        // the router keys', then the ASPAs' (an Update served as an announcement), each in order and each
+        // exactly once: the call returns the action at the current position and advances by one, or
+        // returns None (and stays) when all have been returned; the phase index restarts at 0
+        DeltaArcIter::next_post(*old(self), *final(self), res),
+//@ entry
+    proof {
+        lemma_listed_actions(&*self.delta);
+        assert(self.delta.origins.items@.len() == self.delta.origins.items.len() <= usize::MAX);
+        assert(self.delta.router_keys.items@.len() == self.delta.router_keys.items.len() <= usize::MAX);
+        assert(self.delta.aspas.items@.len() == self.delta.aspas.items.len() <= usize::MAX);
+    }
 //@ global
 // ---------------------------------------------------------------- order and clone assumptions on P
 spec fn lt<P: Ord>(a: P, b: P) -> bool { a.cmp_spec(&b) == Ordering::Less }
@@ -2109,5 +2130,58 @@ proof fn lemma_adescribes_stores_old(d: Seq<(Aspa, AspaAction)>, o: Seq<Aspa>, n
         assert(d.contains(e));
         lemma_dfind_contains(d, e);
         assert(dfind(d, k) == aspa_change(afind(o, k), afind(n, k)));
+    }
+}
+
+// ================================================================ serving a delta: DeltaArcIter
+// C11: the actions a delta lists, in the order they are served
+spec fn listed_actions(d: PayloadDelta) -> Seq<(PayloadRef<'static>, Action)> {
+    d.origins.items@.map_values(|e: (RouteOrigin, Action)| (PayloadRef::Origin(e.0), e.1))
+    + d.router_keys.items@.map_values(|e: (RouterKey, Action)| (PayloadRef::RouterKey(&e.0), e.1))
+    + d.aspas.items@.map_values(|e: (Aspa, AspaAction)| (PayloadRef::Aspa(&e.0), rtr_action(e.1)))
+}
+
+proof fn lemma_listed_actions(d: &PayloadDelta)
+    ensures
+        listed_actions(*d).len() == d.origins.items@.len() + d.router_keys.items@.len() + d.aspas.items@.len(),
+        forall|i: int| 0 <= i < d.origins.items@.len() ==>
+            #[trigger] listed_actions(*d)[i] == (PayloadRef::Origin(d.origins.items@[i].0), d.origins.items@[i].1),
+        forall|i: int| 0 <= i < d.router_keys.items@.len() ==>
+            #[trigger] listed_actions(*d)[d.origins.items@.len() + i]
+                == (PayloadRef::RouterKey(&d.router_keys.items@[i].0), d.router_keys.items@[i].1),
+        forall|i: int| 0 <= i < d.aspas.items@.len() ==>
+            #[trigger] listed_actions(*d)[d.origins.items@.len() + d.router_keys.items@.len() + i]
+                == (PayloadRef::Aspa(&d.aspas.items@[i].0), rtr_action(d.aspas.items@[i].1)),
+{
+}
+
+impl DeltaArcIter {
+    // C11: the contract of next() (pub closed only because PayloadDiff::next is a public trait method
+    // that cannot carry a precondition; the body is visible in this module)
+    pub closed spec fn next_post(pre: DeltaArcIter, post: DeltaArcIter, res: Option<(PayloadRef<'static>, Action)>) -> bool {
+        pre.wf() ==> {
+            &&& post.wf()
+            &&& post.delta == pre.delta
+            &&& pre.pos() < listed_actions(*pre.delta).len() ==>
+                    res == Some(listed_actions(*pre.delta)[pre.pos()]) && post.pos() == pre.pos() + 1
+            &&& pre.pos() >= listed_actions(*pre.delta).len() ==>
+                    res is None && post.pos() == pre.pos()
+        }
+    }
+    // phase + index: the index never exceeds the number of entries of the current phase
+    spec fn wf(&self) -> bool {
+        match self.current_type {
+            PayloadType::Origin => self.next <= self.delta.origins.items@.len(),
+            PayloadType::RouterKey => self.next <= self.delta.router_keys.items@.len(),
+            PayloadType::Aspa => self.next <= self.delta.aspas.items@.len(),
+        }
+    }
+    // how many of the listed actions have been returned
+    spec fn pos(&self) -> int {
+        match self.current_type {
+            PayloadType::Origin => self.next as int,
+            PayloadType::RouterKey => self.delta.origins.items@.len() + self.next,
+            PayloadType::Aspa => self.delta.origins.items@.len() + self.delta.router_keys.items@.len() + self.next,
+        }
     }
 }
